@@ -61,12 +61,23 @@ COQ_OP = {'cost': 'KCost', 'deriv': 'KDeriv', 'hess': 'KHess', 'bounds': 'KBound
 # =====================================================================================================================
 # state inventory
 # =====================================================================================================================
+SOFT_KINDS = ('mutating-call', 'item-assign', 'aug-item', 'del')
+
+
 def inventory_diff():
+  """-> (new state-introducing sites: an obligation, new tooling sites, vanished sites, new container-mutation sites).
+  Sites the scanner classifies by itself (written object created in the same call, `self` under construction, function not reachable
+  from the read-only API) are never new.  Of the rest, an attribute assignment / cache decorator / global / mutable default reachable
+  from the read-only API introduces a cell the state machine of Model/State.v does not have: a broken obligation.  A container
+  mutation (`x.append(..)`, `x[i] = ..`) on an object of unknown origin is not by itself a cell; it triples the number of histories
+  of this run instead (and is listed in the evidence)."""
   inv = [s for s in __import__('json').load(open(INVENTORY))['sites']]
   found = c12_scan.scan(core.REPO)
   new, gone = c12_scan.compare(found, inv)
   new_api = [s for s in new if not c12_scan.is_tooling(s)]
-  return new_api, [s for s in new if c12_scan.is_tooling(s)], gone
+  hard = [s for s in new_api if s['kind'] not in SOFT_KINDS]
+  soft = [s for s in new_api if s['kind'] in SOFT_KINDS]
+  return hard, [s for s in new if c12_scan.is_tooling(s)], gone, soft
 
 
 # =====================================================================================================================
@@ -630,6 +641,12 @@ def gen_history(rng, tier, i):
 
 def gen_cases(rng, tier):
   n = {'quick': 200, 'thorough': 3000, 'search': 60}[tier]
+  if tier == 'quick':
+    try:
+      if inventory_diff()[3]:
+        n *= 3        # unclassified container mutations: look harder (see inventory_diff)
+    except Exception:
+      pass
   out = [{'kind': 'inventory'}] if tier != 'search' else []
   for i in range(n):
     out.append(gen_history(rng, tier, i))
@@ -641,10 +658,10 @@ def gen_cases(rng, tier):
 # =====================================================================================================================
 def observe(c):
   if c['kind'] == 'inventory':
-    new_api, new_tool, gone = inventory_diff()
+    new_api, new_tool, gone, soft = inventory_diff()
     if new_api:
-      raise RuntimeError('state-inventory: %d in-place write site(s) not in corpus/C12/write_sites.json, e.g. %s' % (len(new_api), new_api[:3]))
-    return {'inventory': True, 'new_tooling': new_tool, 'gone': gone}
+      raise RuntimeError('state-inventory: %d state-introducing write site(s) reachable from the read-only API and not in corpus/C12/write_sites.json, e.g. %s' % (len(new_api), new_api[:3]))
+    return {'inventory': True, 'new_tooling': new_tool, 'gone': gone, 'unclassified_container_mutations': soft}
   h = run_history(c, per_call_twin=c.get('twin', True))
   return {'steps': h['steps'], 'final': h['final'], 'problems': h['problems'], 'reg': h['reg'], 'arrays0': h['arrays0'], 'model_upto': h['model_upto'],
           'eff_ops': h['eff_ops']}
